@@ -16,7 +16,7 @@ import logging
 from sfv.framework import Ctx, Property
 from sfv.rt.hexs import hx, unhx
 from sfv.rt.sfctx import make_context
-from sfv.rt.shfake import Hang, MiniConnector, kill_leftovers, run_watchdog
+from sfv.rt.shfake import in_scratch_cwd, Hang, MiniConnector, kill_leftovers, run_watchdog
 from sfv.rt.trees import diff, make_tree, rand_name, resolved, snapshot
 from sfv.translate import cmdtmpl
 
@@ -270,6 +270,7 @@ class C22(Property):
             ctx.case({"op": "rrwc", "dst_is_dir": dst_is_dir, "src_is_dir": src_is_dir, "cmd": real}, ("rrwc", dst_is_dir, src_is_dir, sbase == os.path.basename(dst)), "rrwc-table")
         return lines, expect, meta
 
+    @in_scratch_cwd
     def explore(self, ctx: Ctx) -> None:
         from sfv.rt.shfake import limit_failures
         limit_failures(ctx)
@@ -304,6 +305,7 @@ class C22(Property):
         ctx.extra["copy_route_templates"] = {r["lean"]: ("quoted" if r["quoted"] else "NOT-quoted") + " " + r["text"] for r in self.table
                                              if r["op"] in ("get_local_to_remote_destination", "get_remote_to_remote_write_command", "copy_same_connector", "tar_commands")}
 
+    @in_scratch_cwd
     def replay(self, ctx: Ctx, data) -> None:
         self._setup(ctx)
         r = data.get("replay") or {}
